@@ -199,6 +199,112 @@ def pair_case(draw, tier="quick"):
     return {"kind": kind, "a": a, "b": b, "reload": draw(st.integers(0, 2)) == 0}
 
 
+_POOL_MEMO = {}
+
+
+def run_pool(case, ctx):
+    """Many specifications of similar classes (one pack, one alphabet), every ordered pair
+    judged: near-misses of the isomorphism test - pairs that fail after part of them
+    matched - are where its backtracking and memoisation are exercised."""
+    from comb_spec_searcher.isomorphism import Bijection, Isomorphism
+    from vf.oracles.speciso import isomorphic
+
+    base = case["base"]
+    specs = []
+    for pats in case["patterns"]:
+        sc = dict(base)
+        sc["class"] = [base["class"][0], "", sorted(pats), 0, base["class"][4], base["class"][5], 0]
+        key = json.dumps(sc, sort_keys=True) if case.get("simple") else None
+        if key is not None and key in _POOL_MEMO:
+            if _POOL_MEMO[key] is not None:
+                specs.append(_POOL_MEMO[key])
+            continue
+        with scenario_context(sc) as clock:
+            o = run_search(sc, clock)
+            if o.kind == "spec":
+                specs.append((o.spec, o.start))
+            if key is not None and len(_POOL_MEMO) < 4000:
+                # plain word classes, default encoding, fixed clock: the search is a pure
+                # function of the scenario, and judging a pair does not change a specification
+                _POOL_MEMO[key] = (o.spec, o.start) if o.kind == "spec" else None
+    ctx.label(f"pool-specs:{min(len(specs) // 5 * 5, 30)}")
+    if len(specs) < 2:
+        return
+    with scenario_context(base):
+        verdict = {}
+        for i, (s1, _) in enumerate(specs):
+            for j, (s2, _) in enumerate(specs):
+                if i == j:
+                    continue
+                try:
+                    verdict[i, j] = bool(Isomorphism.check(s1, s2))
+                except Exception as e:
+                    ctx.fail("check-raises", f"Isomorphism.check raised {describe_exc(e)}", f"check-raises/{type(e).__name__}/{describe_exc(e).split(' at ')[-1]}")
+                    return
+        yes = [ij for ij, v in verdict.items() if v]
+        ctx.label(f"pool-isomorphic-pairs:{min(len(yes), 5)}")
+        built = 0
+        for i, j in sorted(verdict):
+            ab, ba = verdict[i, j], verdict[j, i]
+            if i < j:
+                ctx.check(ab == ba, "symmetric", f"Isomorphism.check(a, b) = {ab} but check(b, a) = {ba} for\n{specs[i][1]!r}\n{specs[j][1]!r}")
+            if not ab:
+                continue
+            try:
+                truly = isomorphic(specs[i][0], specs[j][0])
+            except Exception:
+                truly = None
+            if truly is not None:
+                ctx.check(truly, "check-unsound", f"Isomorphism.check says isomorphic, the independent partition-refinement test says not:\n{specs[i][1]!r}\n{specs[j][1]!r}")
+            if built < 4:
+                built += 1
+                try:
+                    bij = Bijection.construct(specs[i][0], specs[j][0])
+                except Exception as e:
+                    ctx.fail("construct-raises", f"Bijection.construct raised {describe_exc(e)}", f"construct-raises/{type(e).__name__}")
+                    continue
+                ctx.check(bij is not None, "construct-vs-check", "construct returns None but check says True")
+                if bij is not None:
+                    check_bijection(ctx, bij, specs[i][1], specs[j][1], 5)
+        ctx.nontrivial = len(verdict) >= 20
+
+
+@st.composite
+def pool_case(draw, tier="quick"):
+    base = _base(draw, tier)
+    simple = draw(st.booleans())
+    if simple:
+        # the pack of the library's own example: remove the front of the prefix first, else expand
+        base = {
+            "class": ["ab", "", [], 0, [], 0, 0],
+            "compressed": 0,
+            "pack": {
+                "initial": [["Peel", {}]],
+                "inferral": [],
+                "expansion": [[["Expand", {"order": draw(st.integers(0, 3))}]]],
+                "ver": [["WordAtom", {}]],
+                "symmetries": [],
+                "iterative": False,
+            },
+            "db": draw(st.sampled_from(gen.DBS)),
+            "expand_verified": False,
+            "debug": False,
+            "call": {"mode": "auto", "max_time": 20.0, "smallest": False},
+            "clock": [0.02],
+            "rng": 0,
+        }
+    alphabet = base["class"][0]
+    if len(alphabet) != 2 and draw(st.integers(0, 3)) > 0:
+        alphabet = "ab"
+        base["class"] = ["ab", "", [], 0, [s_ for s_ in base["class"][4]], base["class"][5], 0]
+    base.pop("prefill", None)
+    m = draw(st.integers(30, 60 if tier == "quick" else 80))
+    hi = 4 if len(alphabet) <= 2 else 3
+    pat = st.text(alphabet=alphabet, min_size=2 if len(alphabet) > 2 else 3, max_size=hi)
+    patterns = draw(st.lists(st.lists(pat, min_size=1, max_size=3, unique=True).map(sorted), min_size=m, max_size=m, unique_by=tuple))
+    return {"base": base, "patterns": patterns, "simple": simple}
+
+
 def subchecks():
     return [
         SubCheck(
@@ -207,5 +313,12 @@ def subchecks():
             strategy=lambda tier: pair_case(tier),
             examples={"quick": 16000, "thorough": 150000},
             case_timeout=30.0,
-        )
+        ),
+        SubCheck(
+            name="pool",
+            run_case=run_pool,
+            strategy=lambda tier: pool_case(tier),
+            examples={"quick": 480, "thorough": 8000},
+            case_timeout=60.0,
+        ),
     ]
